@@ -215,6 +215,579 @@ Proof.
   exists s', l. auto.
 Qed.
 
+(* ------------------------------------------------------------------------
+   NON-VACUITY (audit): a richer universe, fed to EVERY theorem of this file (the theorems are
+   APPLIED, so Coq checks that what is discharged are the theorems' own hypotheses).
+   Objects: binary words (list bool, false = a, true = b), size = length, ONE parameter:
+       class 0 = all words                   0 -> 1 + 2 + 3        (union of three)
+       class 1 = {empty word}                verified (atom-like)
+       class 2 = a.W   class 3 = b.W         2 -> 4 x 0,  3 -> 5 x 0   (products with an atom factor)
+       class 4 = {a}   class 5 = {b}         verified atoms
+       class 6 = empty class                 verified, no objects
+       class 7 = all words                   7 -> [0]  one-child rule through word REVERSAL
+       class 8 = all words                   8 -> [6; 0]  equivalence-shaped union (first child empty)
+                                             through letter COMPLEMENT
+   parameter of a word: its number of b's - except in class 8, which tracks the number of a's
+   (so the child's statistic maps to a different statistic of the parent).  There are several
+   objects per (size, parameter) and several parameter values per size. *)
+Require Import Lia.
+
+Definition bw_size (w : list bool) : Z := zlen w.
+Fixpoint cnt (b : bool) (w : list bool) : Z :=
+  match w with [] => 0 | x :: r => (if Bool.eqb x b then 1 else 0) + cnt b r end.
+Definition bw_in (c : nat) (w : list bool) : Prop :=
+  match c with
+  | 0%nat => True
+  | 1%nat => w = []
+  | 2%nat => exists t, w = false :: t
+  | 3%nat => exists t, w = true :: t
+  | 4%nat => w = [false]
+  | 5%nat => w = [true]
+  | 6%nat => False
+  | 7%nat => True
+  | 8%nat => True
+  | _ => False
+  end.
+Definition bw_par (c : nat) (w : list bool) : params :=
+  match c with 8%nat => [cnt false w] | _ => [cnt true w] end.
+
+Definition bw_fwdU (w : list bool) : subobj (list bool) :=
+  match w with
+  | [] => [Some []; None; None]
+  | false :: _ => [None; Some w; None]
+  | true :: _ => [None; None; Some w]
+  end.
+Definition bw_bwdU (t : subobj (list bool)) : list (list bool) :=
+  match t with
+  | [Some x; None; None] => [x]
+  | [None; Some x; None] => [x]
+  | [None; None; Some x] => [x]
+  | _ => []
+  end.
+Definition bw_fwdP (w : list bool) : subobj (list bool) := [Some (firstn 1 w); Some (tl w)].
+Definition bw_bwdP (t : subobj (list bool)) : list (list bool) :=
+  match t with [Some x; Some y] => [x ++ y] | _ => [] end.
+Definition bw_fwd7 (w : list bool) : subobj (list bool) := [Some (rev w)].
+Definition bw_bwd7 (t : subobj (list bool)) : list (list bool) :=
+  match t with [Some y] => [rev y] | _ => [] end.
+Definition bw_fwd8 (w : list bool) : subobj (list bool) := [None; Some (map negb w)].
+Definition bw_bwd8 (t : subobj (list bool)) : list (list bool) :=
+  match t with [None; Some y] => [map negb y] | _ => [] end.
+Definition bw_atom (m : Z) (p : params) (o : list bool) : Z -> objects (list bool) :=
+  fun n => if n =? m then [(p, [o])] else [].
+
+Definition bw_spec (c : nat) : option (rule (list bool)) :=
+  match c with
+  | 0%nat => Some (RUnion [1%nat; 2%nat; 3%nat] [pid; pid; pid] bw_bwdU)
+  | 1%nat => Some (RVerified (bw_atom 0 [0] []))
+  | 2%nat => Some (RProduct [4%nat; 0%nat] [1; 0] [Some 1; None] [pid; pid] bw_bwdP)
+  | 3%nat => Some (RProduct [5%nat; 0%nat] [1; 0] [Some 1; None] [pid; pid] bw_bwdP)
+  | 4%nat => Some (RVerified (bw_atom 1 [0] [false]))
+  | 5%nat => Some (RVerified (bw_atom 1 [1] [true]))
+  | 6%nat => Some (RVerified (fun _ => []))
+  | 7%nat => Some (RUnion [0%nat] [pid] bw_bwd7)
+  | 8%nat => Some (RUnion [6%nat; 0%nat] [pid; pid] bw_bwd8)
+  | _ => None
+  end.
+Definition bw_rank (c : nat) (n : Z) : nat :=
+  (8 * Z.to_nat n + match c with 0 => 3 | 2 => 2 | 3 => 2 | 7 => 4 | 8 => 4 | _ => 0 end)%nat.
+
+Notation bw_good := (good bw_size bw_in bw_par).
+Notation bw_isobj := (isobj bw_size bw_in bw_par).
+
+(* a dictionary with distinct keys whose lists are duplicate-free, sound and complete is good *)
+Lemma bw_good_intro c n (d : objects (list bool)) :
+  NoDup (map fst d) ->
+  (forall p l, In (p, l) d -> NoDup l /\ forall o, In o l -> bw_isobj c n p o) ->
+  (forall o, bw_in c o -> bw_size o = n -> exists l, In (bw_par c o, l) d /\ In o l) ->
+  bw_good c n d.
+Proof.
+  intros Hk Hs Hc. split; [assumption|]. intros p.
+  destruct (in_dec (list_eq_dec Z.eq_dec) p (map fst d)) as [Hin|Hnin].
+  - apply in_map_iff in Hin. destruct Hin as ([p' l] & E & Hin). simpl in E. subst p'.
+    rewrite (dict_get_in d p l Hk Hin). destruct (Hs p l Hin) as [Hnd Hso].
+    split; [assumption|]. intros o. split; [apply Hso|].
+    intros (Ho & Hsz & Hp). destruct (Hc o Ho Hsz) as (l' & Hin' & Hol). rewrite Hp in Hin'.
+    rewrite (NoDup_fst_unique d p l l' Hk Hin Hin'). assumption.
+  - rewrite (dict_get_notin d p Hnin). split; [constructor|]. intros o. split; [intros []|].
+    intros (Ho & Hsz & Hp). destruct (Hc o Ho Hsz) as (l' & Hin' & _). rewrite Hp in Hin'.
+    exfalso. apply Hnin. apply in_map_iff. exists (p, l'). auto.
+Qed.
+
+Lemma bw_atom_good c m p0 o :
+  (forall x, bw_in c x <-> x = o) -> bw_size o = m -> bw_par c o = p0 ->
+  forall n, 0 <= n -> bw_good c n (bw_atom m p0 o n).
+Proof.
+  intros Hc Hs Hp n Hn. unfold bw_atom. destruct (Z.eqb_spec n m) as [->|Hne].
+  - apply bw_good_intro.
+    + simpl. constructor; [intros []|constructor].
+    + intros p l [E|[]]. inversion E; subst. split; [constructor; [intros []|constructor]|].
+      intros x [<-|[]]. split; [apply Hc; reflexivity|]. split; reflexivity.
+    + intros x Hx _. apply Hc in Hx. subst x. exists [o]. rewrite Hp. split; left; reflexivity.
+  - apply bw_good_intro; [constructor|intros p l []|].
+    intros x Hx Hsz. apply Hc in Hx. subst x. congruence.
+Qed.
+
+Lemma cnt_app b u v : cnt b (u ++ v) = cnt b u + cnt b v.
+Proof. induction u as [|x u IH]; simpl; [reflexivity|rewrite IH; lia]. Qed.
+Lemma cnt_rev b w : cnt b (rev w) = cnt b w.
+Proof. induction w as [|x w IH]; simpl; [reflexivity|]. rewrite cnt_app, IH. simpl. lia. Qed.
+Lemma cnt_negb w : cnt true (map negb w) = cnt false w.
+Proof. induction w as [|x w IH]; simpl; [reflexivity|]. rewrite IH. destruct x; reflexivity. Qed.
+Lemma negb_negb_map w : map negb (map negb w) = w.
+Proof. induction w as [|x w IH]; simpl; [reflexivity|]. rewrite IH, negb_involutive. reflexivity. Qed.
+
+Lemma bw_union_contract :
+  union_contract bw_size bw_in bw_par 0%nat [1%nat; 2%nat; 3%nat] [pid; pid; pid] bw_fwdU bw_bwdU.
+Proof.
+  split.
+  - intros o _. destruct o as [|[|] t].
+    + exists 0%nat, 1%nat, []. repeat split.
+    + exists 2%nat, 3%nat, (true :: t). repeat split. exists t. reflexivity.
+    + exists 1%nat, 2%nat, (false :: t). repeat split. exists t. reflexivity.
+  - intros i k y Hi Hy. destruct i as [|[|[|i]]]; simpl in Hi.
+    + inversion Hi; subst k. simpl in Hy. subst y. exists []. repeat split.
+    + inversion Hi; subst k. destruct Hy as [t ->]. exists (false :: t). repeat split.
+    + inversion Hi; subst k. destruct Hy as [t ->]. exists (true :: t). repeat split.
+    + destruct i; discriminate.
+Qed.
+
+Lemma bw_product_contract (b : bool) (c ka : nat) :
+  (forall w, bw_in c w <-> exists t, w = b :: t) -> (forall w, bw_in ka w <-> w = [b]) ->
+  (forall w, bw_par c w = [cnt true w]) -> (forall w, bw_par ka w = [cnt true w]) ->
+  product_contract bw_size bw_in bw_par c [ka; 0%nat] [pid; pid] bw_fwdP bw_bwdP.
+Proof.
+  intros Hc Hka Hpc Hpa. split.
+  - intros o Ho. apply Hc in Ho. destruct Ho as [t ->]. exists [[b]; t]. split; [reflexivity|].
+    split; [constructor; [apply Hka; reflexivity|constructor; [exact I|constructor]]|]. split.
+    + unfold bw_size, zlen, py_sum. cbn [map fold_right length]. lia.
+    + split; [|reflexivity]. rewrite Hpc. unfold pars_of. cbn [combine map fst snd].
+      rewrite Hpa. unfold new_param, pid. simpl. f_equal. lia.
+  - intros ys Hys. inversion Hys as [|k y ks ys' Hy Hys' E1 E2]; subst.
+    inversion Hys' as [|k2 z ks2 ys2 Hz Hys2 E1 E2]; subst. inversion Hys2; subst.
+    apply Hka in Hy. subst y. exists (b :: z). split; [reflexivity|]. split; [apply Hc; exists z; reflexivity|].
+    reflexivity.
+Qed.
+
+Lemma bw_bounds (ka : nat) (b : bool) : (forall w, bw_in ka w <-> w = [b]) ->
+  bounds_ok bw_size bw_in [ka; 0%nat] [1; 0] [Some 1; None].
+Proof.
+  intros Hka. split; [|split; [|split]].
+  - constructor; [intros y Hy; apply Hka in Hy; subst; unfold bw_size, zlen; simpl; lia|].
+    constructor; [intros y _; unfold bw_size, zlen; lia|constructor].
+  - constructor; [intros y Hy; apply Hka in Hy; subst; unfold bw_size, zlen; simpl; lia|].
+    constructor; [intros y _; exact I|constructor].
+  - repeat constructor; lia.
+  - simpl. lia.
+Qed.
+
+Lemma bw_single_contract :
+  union_contract bw_size bw_in bw_par 7%nat [0%nat] [pid] bw_fwd7 bw_bwd7.
+Proof.
+  split.
+  - intros o _. exists 0%nat, 0%nat, (rev o). split; [reflexivity|]. split; [reflexivity|].
+    split; [exact I|]. split; [unfold bw_size, zlen; rewrite rev_length; reflexivity|].
+    split; [simpl; unfold pid; rewrite cnt_rev; reflexivity|].
+    unfold bw_fwd7, bw_bwd7. rewrite rev_involutive. reflexivity.
+  - intros i k y Hi _. destruct i as [|i]; [|destruct i; discriminate].
+    exists (rev y). split; [reflexivity|]. split; [exact I|].
+    unfold bw_fwd7. rewrite rev_involutive. reflexivity.
+Qed.
+
+Lemma bw_equiv_contract :
+  union_contract bw_size bw_in bw_par 8%nat [6%nat; 0%nat] [pid; pid] bw_fwd8 bw_bwd8.
+Proof.
+  split.
+  - intros o _. exists 1%nat, 0%nat, (map negb o). split; [reflexivity|]. split; [reflexivity|].
+    split; [exact I|]. split; [unfold bw_size, zlen; rewrite map_length; reflexivity|].
+    split; [simpl; unfold pid; rewrite cnt_negb; reflexivity|].
+    unfold bw_fwd8, bw_bwd8. rewrite negb_negb_map. reflexivity.
+  - intros i k y Hi Hy. destruct i as [|[|i]]; simpl in Hi.
+    + inversion Hi; subst k. destruct Hy.
+    + exists (map negb y). split; [reflexivity|]. split; [exact I|].
+      unfold bw_fwd8. rewrite negb_negb_map. reflexivity.
+    + destruct i; discriminate.
+Qed.
+
+Lemma bw_contracts : forall c r, bw_spec c = Some r -> rule_ok bw_size bw_in bw_par c r.
+Proof.
+  intros c r H. destruct c as [|[|[|[|[|[|[|[|[|c]]]]]]]]]; simpl in H; inversion H; subst; simpl.
+  - exists bw_fwdU. apply bw_union_contract.
+  - apply bw_atom_good; [|reflexivity|reflexivity]. intros x. simpl. tauto.
+  - split; [exists bw_fwdP; apply (bw_product_contract false)|apply (bw_bounds 4%nat false)];
+      intros w; simpl; tauto.
+  - split; [exists bw_fwdP; apply (bw_product_contract true)|apply (bw_bounds 5%nat true)];
+      intros w; simpl; tauto.
+  - apply bw_atom_good; [|reflexivity|reflexivity]. intros x. simpl. tauto.
+  - apply bw_atom_good; [|reflexivity|reflexivity]. intros x. simpl. tauto.
+  - intros n _. apply bw_good_intro; [constructor|intros p l []|intros o []].
+  - exists bw_fwd7. apply bw_single_contract.
+  - exists bw_fwd8. apply bw_equiv_contract.
+Qed.
+
+(* what a product rule (atom ka) x (class kb) reads at level n *)
+Lemma bw_product_reads (ka kb : nat) n c' m :
+  In (c', m) (flat_map (fun sizes => combine [ka; kb] sizes)
+                       (compositions n (zlen [ka; kb]) [1; 0] [Some 1; None])) ->
+  (c' = ka /\ m = 1 /\ 1 <= n) \/ (c' = kb /\ m = n - 1 /\ 1 <= n).
+Proof.
+  intros H. apply in_flat_map in H. destruct H as (sizes & Hs & Hin).
+  apply compositions_sound in Hs; [|reflexivity|reflexivity].
+  destruct Hs as (Hl & Hsum & Hmin & Hmax).
+  inversion Hmin as [|m1 s1 ms ss H1 Hmin' E1 E2]; subst.
+  inversion Hmin' as [|m2 s2 ms2 ss2 H2 Hmin'' E1 E2]; subst. inversion Hmin''; subst.
+  inversion Hmax as [|s1' M1 ss' Ms Hb1 Hmax' E1 E2]; subst. simpl in Hb1.
+  unfold py_sum. cbn [fold_right]. simpl in Hin.
+  destruct Hin as [E|[E|[]]]; inversion E; subst; [left|right]; repeat split; lia.
+Qed.
+
+Lemma bw_closed : forall c r n c' m,
+  bw_spec c = Some r -> 0 <= n -> In (c', m) (reads r n) -> bw_spec c' <> None.
+Proof.
+  intros c r n c' m H Hn Hin.
+  destruct c as [|[|[|[|[|[|[|[|[|c]]]]]]]]]; simpl in H; inversion H; subst; simpl in Hin;
+    try contradiction.
+  - destruct Hin as [E|[E|[E|[]]]]; inversion E; subst; discriminate.
+  - apply bw_product_reads in Hin. destruct Hin as [(-> & _)|(-> & _)]; discriminate.
+  - apply bw_product_reads in Hin. destruct Hin as [(-> & _)|(-> & _)]; discriminate.
+  - destruct Hin as [E|[]]; inversion E; subst; discriminate.
+  - destruct Hin as [E|[E|[]]]; inversion E; subst; discriminate.
+Qed.
+
+Lemma bw_rank_reads : forall c r n c' m,
+  bw_spec c = Some r -> 0 <= n -> In (c', m) (reads r n) ->
+  0 <= m /\ (bw_rank c' m < bw_rank c n)%nat.
+Proof.
+  intros c r n c' m H Hn Hin.
+  destruct c as [|[|[|[|[|[|[|[|[|c]]]]]]]]]; simpl in H; inversion H; subst; simpl in Hin;
+    try contradiction.
+  - destruct Hin as [E|[E|[E|[]]]]; inversion E; subst; unfold bw_rank; split; lia.
+  - apply bw_product_reads in Hin. unfold bw_rank.
+    destruct Hin as [(-> & -> & H1)|(-> & -> & H1)]; split; lia.
+  - apply bw_product_reads in Hin. unfold bw_rank.
+    destruct Hin as [(-> & -> & H1)|(-> & -> & H1)]; split; lia.
+  - destruct Hin as [E|[]]; inversion E; subst; unfold bw_rank; split; lia.
+  - destruct Hin as [E|[E|[]]]; inversion E; subst; unfold bw_rank; split; lia.
+Qed.
+
+Lemma bw_rank_mono : forall c m n, 0 <= m < n -> (bw_rank c m < bw_rank c n)%nat.
+Proof. intros c m n H. unfold bw_rank. lia. Qed.
+
+
+(* ---- dictionaries of one level ---- *)
+Definition bw_d2_2 : objects (list bool) := [([0], [[false; false]]); ([1], [[false; true]])].
+Definition bw_d3_2 : objects (list bool) := [([1], [[true; false]]); ([2], [[true; true]])].
+Definition bw_d0_2 : objects (list bool) :=
+  [([0], [[false; false]]); ([1], [[false; true]; [true; false]]); ([2], [[true; true]])].
+
+Ltac bw_entries :=
+  let p := fresh "p" in let l := fresh "l" in let Hin := fresh "Hin" in
+  intros p l Hin; simpl in Hin;
+  repeat (destruct Hin as [Hin|Hin]; [inversion Hin; subst; clear Hin|]); try contradiction;
+  (split; [repeat constructor; simpl; intuition discriminate|]);
+  (let o := fresh "o" in let Ho := fresh "Ho" in
+   intros o Ho; simpl in Ho;
+   repeat (destruct Ho as [Ho|Ho]; [subst o|]); try contradiction;
+   (split; [simpl; try exact I; try (eexists; reflexivity)|split; reflexivity])).
+
+Ltac bw_pick :=
+  simpl; eexists; split;
+  [first [left; reflexivity | right; left; reflexivity | right; right; left; reflexivity]|simpl; auto].
+Lemma bw_d2_2_good : bw_good 2%nat 2 bw_d2_2.
+Proof.
+  apply bw_good_intro.
+  - repeat constructor; simpl; intuition discriminate.
+  - bw_entries.
+  - intros o [t ->] Hsz. unfold bw_size, zlen in Hsz. destruct t as [|b [|b' t]]; simpl in Hsz; try lia.
+    destruct b; bw_pick.
+Qed.
+Lemma bw_d3_2_good : bw_good 3%nat 2 bw_d3_2.
+Proof.
+  apply bw_good_intro.
+  - repeat constructor; simpl; intuition discriminate.
+  - bw_entries.
+  - intros o [t ->] Hsz. unfold bw_size, zlen in Hsz. destruct t as [|b [|b' t]]; simpl in Hsz; try lia.
+    destruct b; bw_pick.
+Qed.
+Lemma bw_d0_2_good : bw_good 0%nat 2 bw_d0_2.
+Proof.
+  apply bw_good_intro.
+  - repeat constructor; simpl; intuition discriminate.
+  - bw_entries.
+  - intros o _ Hsz. unfold bw_size, zlen in Hsz. destruct o as [|a [|b [|b' t]]]; simpl in Hsz; try lia.
+    destruct a, b; bw_pick.
+Qed.
+Lemma bw_d1_2_good : bw_good 1%nat 2 [].
+Proof.
+  apply (bw_atom_good 1%nat 0 [0] [] ltac:(intros x; simpl; tauto) eq_refl eq_refl 2). lia.
+Qed.
+Lemma bw_d5_1_good : bw_good 5%nat 1 [([1], [[true]])].
+Proof.
+  apply (bw_atom_good 5%nat 1 [1] [true] ltac:(intros x; simpl; tauto) eq_refl eq_refl 1). lia.
+Qed.
+Lemma bw_subs_good : Forall2 (fun k d => bw_good k 2 d) [1%nat; 2%nat; 3%nat] [[]; bw_d2_2; bw_d3_2].
+Proof.
+  constructor; [exact bw_d1_2_good|]. constructor; [exact bw_d2_2_good|].
+  constructor; [exact bw_d3_2_good|constructor].
+Qed.
+Lemma bw_per_comp_good :
+  Forall2 (fun sizes ds => Forall2 (goodks bw_size bw_in bw_par) (combine [5%nat; 0%nat] sizes) ds)
+          (compositions 3 (zlen [5%nat; 0%nat]) [1; 0] [Some 1; None]) [[[([1], [[true]])]; bw_d0_2]].
+Proof.
+  change (compositions 3 (zlen [5%nat; 0%nat]) [1; 0] [Some 1; None]) with [[1; 2]].
+  constructor; [|constructor]. simpl.
+  constructor; [exact bw_d5_1_good|]. constructor; [exact bw_d0_2_good|constructor].
+Qed.
+
+Definition bw_maps3 : list pmap := [pid; pid; pid].
+Definition bw_subs : list (objects (list bool)) := [[]; bw_d2_2; bw_d3_2].
+Definition bw_per_comp : list (list (objects (list bool))) := [[[([1], [[true]])]; bw_d0_2]].
+
+(* covers C07_union_sub_objects; the pairs really enumerated *)
+Example C07_union_sub_objects_nonvacuous :
+  NoDup (pairs (union_yields bw_maps3 bw_subs)) /\
+  forall q t, In (q, t) (pairs (union_yields bw_maps3 bw_subs)) <->
+              valid_u bw_size bw_in bw_par [1%nat; 2%nat; 3%nat] bw_maps3 2 q t.
+Proof.
+  exact (C07_union_sub_objects bw_size bw_in bw_par [1%nat; 2%nat; 3%nat] bw_maps3 2 bw_subs bw_subs_good).
+Qed.
+Example C07_union_sub_objects_value :
+  pairs (union_yields bw_maps3 bw_subs) =
+  [([0], [None; Some [false; false]; None]); ([1], [None; Some [false; true]; None]);
+   ([1], [None; None; Some [true; false]]); ([2], [None; None; Some [true; true]])].
+Proof. vm_compute. reflexivity. Qed.
+
+(* covers C07_product_sub_objects: class 3 = b.W at size 3, one composition (1,2) *)
+Example C07_product_sub_objects_nonvacuous :
+  NoDup (pairs (product_yields [pid; pid] bw_per_comp)) /\
+  forall q t, In (q, t) (pairs (product_yields [pid; pid] bw_per_comp)) <->
+              valid_p bw_size bw_in bw_par [5%nat; 0%nat] [pid; pid] 3 q t.
+Proof.
+  exact (C07_product_sub_objects bw_size bw_in bw_par [5%nat; 0%nat] [1; 0] [Some 1; None] [pid; pid] 3
+           bw_per_comp (bw_bounds 5%nat true ltac:(intros w; simpl; tauto)) bw_per_comp_good).
+Qed.
+Example C07_product_sub_objects_value :
+  pairs (product_yields [pid; pid] bw_per_comp) =
+  [([1], [Some [true]; Some [false; false]]); ([2], [Some [true]; Some [false; true]]);
+   ([2], [Some [true]; Some [true; false]]); ([3], [Some [true]; Some [true; true]])].
+Proof. vm_compute. reflexivity. Qed.
+
+(* covers C07_union_level; the level built is the hand-written dictionary of class 0 at size 2 *)
+Example C07_union_level_nonvacuous :
+  bw_good 0%nat 2 (build_level bw_bwdU (union_yields bw_maps3 bw_subs)).
+Proof.
+  exact (C07_union_level bw_size bw_in bw_par 0%nat [1%nat; 2%nat; 3%nat] bw_maps3 bw_fwdU bw_bwdU 2
+           bw_subs bw_union_contract bw_subs_good).
+Qed.
+Example C07_union_level_value : build_level bw_bwdU (union_yields bw_maps3 bw_subs) = bw_d0_2.
+Proof. vm_compute. reflexivity. Qed.
+
+(* covers C07_product_level *)
+Example C07_product_level_nonvacuous :
+  bw_good 3%nat 3 (build_level bw_bwdP (product_yields [pid; pid] bw_per_comp)).
+Proof.
+  refine (C07_product_level bw_size bw_in bw_par 3%nat [5%nat; 0%nat] [1; 0] [Some 1; None] [pid; pid]
+            bw_fwdP bw_bwdP 3 bw_per_comp
+            (bw_product_contract true 3%nat 5%nat _ _ _ _) (bw_bounds 5%nat true _) bw_per_comp_good);
+    intros w; simpl; try tauto; reflexivity.
+Qed.
+Example C07_product_level_value :
+  build_level bw_bwdP (product_yields [pid; pid] bw_per_comp) =
+  [([1], [[true; false; false]]); ([2], [[true; false; true]; [true; true; false]]);
+   ([3], [[true; true; true]])].
+Proof. vm_compute. reflexivity. Qed.
+
+(* covers C07_count_eq_length_union_step / _product_step; two words with one b at that level *)
+Example C07_count_eq_length_union_step_nonvacuous :
+  forall q, counter_get (union_terms bw_maps3 (map terms_of bw_subs)) q
+            = zlen (dict_get (build_level bw_bwdU (union_yields bw_maps3 bw_subs)) q).
+Proof.
+  apply (C07_count_eq_length_union_step bw_maps3 bw_bwdU bw_subs).
+  intros qt Hin. rewrite C07_union_sub_objects_value in Hin. simpl in Hin.
+  repeat (destruct Hin as [<-|Hin]; [reflexivity|]). contradiction.
+Qed.
+Example C07_count_eq_length_product_step_nonvacuous :
+  forall q, counter_get (product_terms [pid; pid] (map (map terms_of) bw_per_comp)) q
+            = zlen (dict_get (build_level bw_bwdP (product_yields [pid; pid] bw_per_comp)) q).
+Proof.
+  apply (C07_count_eq_length_product_step [pid; pid] bw_bwdP bw_per_comp).
+  intros qt Hin. rewrite C07_product_sub_objects_value in Hin. simpl in Hin.
+  repeat (destruct Hin as [<-|Hin]; [reflexivity|]). contradiction.
+Qed.
+Example C07_count_eq_length_step_values :
+  counter_get (union_terms bw_maps3 (map terms_of bw_subs)) [1] = 2 /\
+  counter_get (product_terms [pid; pid] (map (map terms_of) bw_per_comp)) [2] = 2 /\
+  counter_get (product_terms [pid; pid] (map (map terms_of) bw_per_comp)) [0] = 0.
+Proof. vm_compute. repeat split; reflexivity. Qed.
+
+(* ---- whole specification ---- *)
+(* covers C07_generate_exact: class 0 (union of three, products with atom factors) and class 8
+   (an equivalence-shaped union whose first child is empty and whose parameter is the OTHER
+   statistic), from any consistent cache state, for every parameter value *)
+Example C07_generate_exact_nonvacuous :
+  forall c, (c = 0%nat \/ c = 8%nat) ->
+  exists f0, forall f, (f0 <= f)%nat ->
+    forall s, Inv bw_size bw_in bw_par s -> forall p,
+    exists s' l, generate_objects_of_size bw_spec f s c 3 p = Some (s', l) /\
+                 Inv bw_size bw_in bw_par s' /\ NoDup l /\ forall o, In o l <-> bw_isobj c 3 p o.
+Proof.
+  intros c Hc.
+  apply (C07_generate_exact bw_size bw_in bw_par bw_spec bw_rank bw_contracts bw_closed bw_rank_reads
+           bw_rank_mono c 3); [destruct Hc as [->| ->]; discriminate|lia].
+Qed.
+(* the model run: the answers are non-empty lists of several words, differ by parameter value, and
+   too small a recursion depth gives no answer (the existential depth is not met by a default) *)
+Example C07_generate_exact_value :
+  (match generate_objects_of_size bw_spec 60 empty_cache 0%nat 3 [2] with
+   | Some (_, l) => l = [[false; true; true]; [true; false; true]; [true; true; false]] | None => False end) /\
+  (match generate_objects_of_size bw_spec 60 empty_cache 0%nat 3 [3] with
+   | Some (_, l) => l = [[true; true; true]] | None => False end) /\
+  (match generate_objects_of_size bw_spec 60 empty_cache 0%nat 3 [2; 0] with
+   | Some (_, l) => l = [] | None => False end) /\
+  (match generate_objects_of_size bw_spec 60 empty_cache 8%nat 3 [2] with
+   | Some (_, l) => l = [[true; false; false]; [false; true; false]; [false; false; true]] | None => False end) /\
+  generate_objects_of_size bw_spec 3 empty_cache 0%nat 3 [2] = None.
+Proof. vm_compute. repeat split; reflexivity. Qed.
+
+(* the invariant hypothesis `Inv s` is met by NON-EMPTY reachable cache states: a second call is
+   fed with the state left by a first one (theorem applied twice), and on the model run that state
+   holds four levels of class 0 *)
+Example C07_generate_exact_from_reached_state :
+  exists f s1 l1 s2 l2,
+    generate_objects_of_size bw_spec f empty_cache 8%nat 3 [2] = Some (s1, l1) /\
+    Inv bw_size bw_in bw_par s1 /\
+    generate_objects_of_size bw_spec f s1 0%nat 3 [2] = Some (s2, l2) /\
+    NoDup l2 /\ forall o, In o l2 <-> bw_isobj 0%nat 3 [2] o.
+Proof.
+  destruct (C07_generate_exact_nonvacuous 8%nat (or_intror eq_refl)) as [fa Ha].
+  destruct (C07_generate_exact_nonvacuous 0%nat (or_introl eq_refl)) as [fb Hb].
+  destruct (Ha (Nat.max fa fb) (Nat.le_max_l _ _) empty_cache (Inv_empty bw_size bw_in bw_par) [2])
+    as (s1 & l1 & E1 & I1 & _ & _).
+  destruct (Hb (Nat.max fa fb) (Nat.le_max_r _ _) s1 I1 [2]) as (s2 & l2 & E2 & _ & Hnd & Hm).
+  exists (Nat.max fa fb), s1, l1, s2, l2. auto.
+Qed.
+Example C07_generate_exact_reached_state_value :
+  match generate_objects_of_size bw_spec 60 empty_cache 8%nat 3 [2] with
+  | Some (s1, _) =>
+      clen s1 0%nat = 4 /\ clen s1 2%nat = 4 /\
+      match generate_objects_of_size bw_spec 60 s1 0%nat 3 [2] with
+      | Some (_, l) => l = [[false; true; true]; [true; false; true]; [true; true; false]]
+      | None => False
+      end
+  | None => False
+  end.
+Proof. vm_compute. repeat split; reflexivity. Qed.
+
+(* an independent enumeration of the words of length 3 with a given number of b's *)
+Definition bw_all3 : list (list bool) :=
+  [[false; false; false]; [false; false; true]; [false; true; false]; [false; true; true];
+   [true; false; false]; [true; false; true]; [true; true; false]; [true; true; true]].
+Definition bw_enum (p : params) : list (list bool) :=
+  filter (fun w => params_eqb [cnt true w] p) bw_all3.
+Lemma bw_all3_spec o : In o bw_all3 <-> bw_size o = 3.
+Proof.
+  split.
+  - intros H. simpl in H. repeat (destruct H as [<-|H]; [reflexivity|]). contradiction.
+  - intros H. unfold bw_size, zlen in H. destruct o as [|a [|b [|c [|d o]]]]; simpl in H; try lia.
+    destruct a, b, c; simpl; tauto.
+Qed.
+Lemma bw_enum_spec : forall p, NoDup (bw_enum p) /\ forall o, In o (bw_enum p) <-> bw_isobj 0%nat 3 p o.
+Proof.
+  intros p. split.
+  - apply NoDup_filter. repeat constructor; simpl; intuition discriminate.
+  - intros o. unfold bw_enum. rewrite filter_In, bw_all3_spec, params_eqb_spec.
+    unfold isobj. simpl. tauto.
+Qed.
+
+(* covers C07_generate_perm *)
+Example C07_generate_perm_nonvacuous :
+  exists f0, forall f, (f0 <= f)%nat ->
+    forall s, Inv bw_size bw_in bw_par s -> forall p,
+    exists s' l, generate_objects_of_size bw_spec f s 0%nat 3 p = Some (s', l) /\
+                 NoDup l /\ Permutation l (bw_enum p) /\ length l = length (bw_enum p).
+Proof.
+  apply (C07_generate_perm bw_size bw_in bw_par bw_spec bw_rank bw_contracts bw_closed bw_rank_reads
+           bw_rank_mono 0%nat 3 bw_enum); [discriminate|lia|exact bw_enum_spec].
+Qed.
+Example C07_generate_perm_value : bw_enum [2] = [[false; true; true]; [true; false; true]; [true; true; false]].
+Proof. vm_compute. reflexivity. Qed.
+
+(* covers C07_count_eq_length_partial (count := the true count, as its hypothesis demands) *)
+Example C07_count_eq_length_partial_nonvacuous :
+  exists f0, forall f, (f0 <= f)%nat -> forall p,
+    exists s' l, generate_objects_of_size bw_spec f empty_cache 0%nat 3 p = Some (s', l) /\
+                 length (bw_enum p) = length l.
+Proof.
+  apply (C07_count_eq_length_partial bw_size bw_in bw_par bw_spec bw_rank bw_contracts bw_closed
+           bw_rank_reads bw_rank_mono 0%nat 3 bw_enum (fun p => length (bw_enum p)));
+    [discriminate|lia|exact bw_enum_spec|reflexivity].
+Qed.
+
+(* ---- round trips of the rule forms, on rule 8 -> [6 (empty); 0] and rule 7 -> [0] ---- *)
+Lemma bw_others_empty : forall i k y, nth_error [6%nat; 0%nat] i = Some k -> bw_in k y -> i = 1%nat.
+Proof.
+  intros [|[|i]] k y Hi Hy; simpl in Hi; [inversion Hi; subst; destruct Hy|reflexivity|destruct i; discriminate].
+Qed.
+Definition bw_pf8 (o : list bool) : option (subobj (list bool)) := Some (bw_fwd8 o).
+Definition bw_pb8 (t : subobj (list bool)) : option (list (list bool)) := Some (bw_bwd8 t).
+
+Example C07_roundtrip_equivalence_nonvacuous :
+  link bw_in 8%nat 0%nat (eqv_forward bw_pf8 1) (eqv_backward bw_pb8 1 (length [6%nat; 0%nat])).
+Proof.
+  exact (C07_roundtrip_equivalence bw_size bw_in bw_par 8%nat [6%nat; 0%nat] [pid; pid] bw_fwd8 bw_bwd8
+           1%nat 0%nat bw_equiv_contract eq_refl bw_others_empty).
+Qed.
+Example C07_roundtrip_reverse_nonvacuous :
+  exists o, bw_in 8%nat o /\
+    rev_forward bw_pb8 1 (length [6%nat; 0%nat]) true [true; false]
+      = Some (Some o :: repeat None (length [6%nat; 0%nat] - 1)) /\
+    rev_backward bw_pf8 1 true (Some o :: repeat None (length [6%nat; 0%nat] - 1)) = Some [[true; false]].
+Proof.
+  exact (C07_roundtrip_reverse bw_size bw_in bw_par 8%nat [6%nat; 0%nat] [pid; pid] bw_fwd8 bw_bwd8
+           1%nat 0%nat bw_equiv_contract eq_refl [true; false] I).
+Qed.
+Example C07_roundtrip_reverse_equivalence_nonvacuous :
+  link bw_in 0%nat 8%nat
+       (eqv_forward (rev_forward bw_pb8 1 (length [6%nat; 0%nat]) true) 0)
+       (eqv_backward (rev_backward bw_pf8 1 true) 0 (length [6%nat; 0%nat])).
+Proof.
+  exact (C07_roundtrip_reverse_equivalence bw_size bw_in bw_par 8%nat [6%nat; 0%nat] [pid; pid]
+           bw_fwd8 bw_bwd8 1%nat 0%nat bw_equiv_contract eq_refl).
+Qed.
+Example C07_roundtrip_plain_single_nonvacuous :
+  link bw_in 7%nat 0%nat (fun o => Some (bw_fwd7 o)) (fun t => Some (bw_bwd7 t)).
+Proof.
+  exact (C07_roundtrip_plain_single bw_size bw_in bw_par 7%nat 0%nat [pid] bw_fwd7 bw_bwd7 bw_single_contract).
+Qed.
+(* a path  7 --plain--> 0 --EquivalenceRule(ReverseRule)--> 8 --EquivalenceRule--> 0 *)
+Definition bw_path : list (form (obj := list bool)) :=
+  [((fun o => Some (bw_fwd7 o)), (fun t => Some (bw_bwd7 t)));
+   (eqv_forward (rev_forward bw_pb8 1 (length [6%nat; 0%nat]) true) 0,
+    eqv_backward (rev_backward bw_pf8 1 true) 0 (length [6%nat; 0%nat]));
+   (eqv_forward bw_pf8 1, eqv_backward bw_pb8 1 (length [6%nat; 0%nat]))].
+Lemma bw_chain : chain bw_in 7%nat bw_path 0%nat.
+Proof.
+  eapply chain_cons; [exact C07_roundtrip_plain_single_nonvacuous|].
+  eapply chain_cons; [exact C07_roundtrip_reverse_equivalence_nonvacuous|].
+  eapply chain_cons; [exact C07_roundtrip_equivalence_nonvacuous|]. apply chain_nil.
+Qed.
+Example C07_roundtrip_path_nonvacuous :
+  exists z, bw_in 0%nat z /\ path_forward (map fst bw_path) [true; false; false] = Some [Some z] /\
+            path_backward (map snd bw_path) [Some z] = Some [[true; false; false]].
+Proof.
+  exact (C07_roundtrip_path bw_in 7%nat bw_path 0%nat bw_chain [true; false; false] I).
+Qed.
+(* the maps really move the objects: values along the path, and through each derived form *)
+Example C07_roundtrip_values :
+  eqv_forward bw_pf8 1 [true; false; false] = Some [Some [false; true; true]] /\
+  eqv_backward bw_pb8 1 2 [Some [false; true; true]] = Some [[true; false; false]] /\
+  rev_forward bw_pb8 1 2 true [true; false] = Some [Some [false; true]; None] /\
+  rev_backward bw_pf8 1 true [Some [false; true]; None] = Some [[true; false]] /\
+  path_forward (map fst (firstn 2 bw_path)) [true; false; false] = Some [Some [true; true; false]] /\
+  path_forward (map fst bw_path) [true; false; false] = Some [Some [false; false; true]] /\
+  path_backward (map snd bw_path) [Some [false; false; true]] = Some [[true; false; false]].
+Proof. vm_compute. repeat split; reflexivity. Qed.
+
 Print Assumptions C07_union_sub_objects.
 Print Assumptions C07_product_sub_objects.
 Print Assumptions C07_union_level.
